@@ -1,3 +1,5 @@
 import MdkVerif.Generated
 import MdkVerif.Model.Basic
 import MdkVerif.Model.Store
+import MdkVerif.Model.Codec
+import MdkVerif.Model.Tags
